@@ -12,6 +12,11 @@ package main
 //                         reset it in a deferred function (so a compile error cannot leave it set)?
 //   startClearsHaltUnconditionally  (*VirtualMachine).start clears vm.halt at the top level of its body,
 //                         not only under a condition on the context
+//   importCacheReplacedBy  the functions of vm/vm.go that replace or clear the import cache: an assignment to
+//                         `vm.modules` as a whole, `clear(vm.modules)` or `delete(vm.modules, …)` (entering a module,
+//                         `vm.modules[name] = …`, is not one)
+//   resetOnlyWhenResetState  every call of vm.resetForNewCode sits in runCodeInternal under an `if` on resetState
+//                         (so the incremental path, Run, never reaches it)
 //   loadsFunctionConstantsEveryRun  runCodeInternal's loop over the function constants of the code (vm.loadCode
 //                         of each *compiler.Function) is at the top level of its body: executed by every Run
 
@@ -21,6 +26,7 @@ import (
 	"go/printer"
 	"go/token"
 	"sort"
+	"strconv"
 	"strings"
 )
 
@@ -149,6 +155,60 @@ func c18_genC18(repo string) string {
 			loadsEveryRun = true
 		}
 	}
+	// --- the import cache: who replaces or clears vm.modules, and when resetForNewCode is reached
+	replacedBy := map[string]bool{}
+	resetGuarded, resetCalls := true, 0
+	for _, d := range vmf.Decls {
+		fd, ok := d.(*ast.FuncDecl)
+		if !ok || fd.Body == nil {
+			continue
+		}
+		isModules := func(e ast.Expr) bool {
+			se, ok := e.(*ast.SelectorExpr)
+			return ok && se.Sel.Name == "modules"
+		}
+		var walk func(n ast.Node, underReset bool)
+		walk = func(n ast.Node, underReset bool) {
+			ast.Inspect(n, func(m ast.Node) bool {
+				switch x := m.(type) {
+				case *ast.IfStmt:
+					if x.Init != nil {
+						walk(x.Init, underReset)
+					}
+					walk(x.Cond, underReset)
+					walk(x.Body, underReset || strings.Contains(c18Expr(fset, x.Cond), "resetState"))
+					if x.Else != nil {
+						walk(x.Else, underReset)
+					}
+					return false
+				case *ast.AssignStmt:
+					for _, l := range x.Lhs {
+						if isModules(l) {
+							replacedBy[fd.Name.Name] = true
+						}
+					}
+				case *ast.CallExpr:
+					fn := c18Expr(fset, x.Fun)
+					if (fn == "clear" || fn == "delete") && len(x.Args) >= 1 && isModules(x.Args[0]) {
+						replacedBy[fd.Name.Name] = true
+					}
+					if strings.HasSuffix(fn, ".resetForNewCode") {
+						resetCalls++
+						if fd.Name.Name != "runCodeInternal" || !underReset {
+							resetGuarded = false
+						}
+					}
+				}
+				return true
+			})
+		}
+		walk(fd.Body, false)
+	}
+	var replacedList []string
+	for k := range replacedBy {
+		replacedList = append(replacedList, k)
+	}
+	sort.Strings(replacedList)
 	// --- compile-only state: set sites and deferred resets, per compile function
 	compFile := parse("compiler/compiler.go")
 	fieldOf := func(e ast.Expr) string {
@@ -272,6 +332,8 @@ func c18_genC18(repo string) string {
 	s += "/-- per compile-only field of compiler.go: every compile function that sets it resets it in a deferred function -/\ndef compileOnlyRestores : List (String × Bool) := [" + strings.Join(restorePairs, ", ") + "]\n\n"
 	s += "/-- (*VirtualMachine).start clears vm.halt unconditionally (top level of its body) -/\ndef startClearsHaltUnconditionally : Bool := " + b(clearsHalt) + "\n\n"
 	s += "/-- runCodeInternal loads every function constant of the code on every run (loop at the top level of its body) -/\ndef loadsFunctionConstantsEveryRun : Bool := " + b(loadsEveryRun) + "\n\n"
+	s += "/-- the functions of vm/vm.go that replace or clear vm.modules (the import cache) -/\ndef importCacheReplacedBy : List String := " + q(replacedList) + "\n\n"
+	s += "/-- every call of resetForNewCode is in runCodeInternal under an `if` on resetState (calls found: " + strconv.Itoa(resetCalls) + ") -/\ndef resetOnlyWhenResetState : Bool := " + b(resetGuarded && resetCalls > 0) + "\n\n"
 	s += "end Risor.Generated.C18\n"
 	return s
 }
